@@ -29,4 +29,5 @@ for n in $names; do
   fi
   cat $d/result.json
 done
+/venv/bin/python tools/setup.py >/dev/null 2>&1   # Gen/*.v and .vo files back to the unchanged tree
 [ -z "$(git -C /repo status --porcelain)" ] && echo "repo clean"
